@@ -199,19 +199,19 @@ mutual
         rw [hl]
         exact good_append (by simp [chainOK, pairOK, hx]) (by simpa [lastOf] using hg)
     | .bin op p a b, x, hx => by
-        have h1 := good_wrap ff (binPrec op) (good_toks a) x hx
-        have h2 := good_wrap ff (binPrec op + 1) (good_toks b) (tokOf op) (before_tokOf op)
-        have : typs (toks ff (.bin op p a b)) = typs (unsp (wrapP a (binPrec op) (pieces ff a))) ++
-            ([tokOf op] ++ typs (unsp (wrapP b (binPrec op + 1) (pieces ff b)))) := by
+        have h1 := good_wrap ff (leftMin op) (good_toks a) x hx
+        have h2 := good_wrap ff (rightMin op) (good_toks b) (tokOf op) (before_tokOf op)
+        have : typs (toks ff (.bin op p a b)) = typs (unsp (wrapP a (leftMin op) (pieces ff a))) ++
+            ([tokOf op] ++ typs (unsp (wrapP b (rightMin op) (pieces ff b)))) := by
           simp [toks, pieces, unsp, unsp_append, typs, tOp]
         rw [this]
         refine good_append h1.1 (good_append ?_ (by simpa [lastOf] using h2))
         simp [chainOK, pairOK_op h1.2 op]
     | .tern p c a b, x, hx => by
-        have h1 := good_wrap ff precElvis (good_toks c) x hx
+        have h1 := good_wrap ff (precElvis + 1) (good_toks c) x hx
         have h2 := good_wrap ff precElvis (good_toks a) .tTernIf (by simp [beforeOperand])
         have h3 := good_toks b .tColon (by simp [beforeOperand])
-        have : typs (toks ff (.tern p c a b)) = typs (unsp (wrapP c precElvis (pieces ff c))) ++
+        have : typs (toks ff (.tern p c a b)) = typs (unsp (wrapP c (precElvis + 1) (pieces ff c))) ++
             ([.tTernIf] ++ (typs (unsp (wrapP a precElvis (pieces ff a))) ++ ([.tColon] ++ typs (toks ff b)))) := by
           simp [toks, pieces, unsp, unsp_append, typs, tTernIf, tColon]
         rw [this]
